@@ -277,14 +277,15 @@ def sha(s):
 
 
 def strip_inactive_contract_harnesses(text, active):
-    """A harness with proof_for_contract / stub_verified attributes only compiles when the named
-    functions carry contracts in this copy.  For harnesses outside `active` the attribute lines are
-    removed (the fn stays as dead code)."""
+    """Only the harnesses in `active` stay harnesses in this copy: for every other fn the `#[kani::...]`
+    attribute lines are removed (the fn stays as dead code).  Needed because (a) proof_for_contract /
+    stub_verified only compile when the named functions carry contracts in this copy and (b) Kani rejects
+    a build in which a function carries contract attributes and is also the target of a plain kani::stub."""
     lines = text.split('\n')
     out = []
     i = 0
     while i < len(lines):
-        if lines[i].lstrip().startswith('#[kani::proof_for_contract') or lines[i].lstrip().startswith('#[kani::stub_verified'):
+        if lines[i].lstrip().startswith('#[kani::'):
             j = i
             while j < len(lines) and lines[j].lstrip().startswith('#['):
                 j += 1
@@ -292,7 +293,7 @@ def strip_inactive_contract_harnesses(text, active):
             if m and m.group(2) in active:
                 out.extend(lines[i:j])
             else:
-                out.extend(l for l in lines[i:j] if not (l.lstrip().startswith('#[kani::proof_for_contract') or l.lstrip().startswith('#[kani::stub_verified')))
+                out.extend(l for l in lines[i:j] if not l.lstrip().startswith('#[kani::'))
                 out.append('#[allow(dead_code)]')
             i = j
             continue
